@@ -39,6 +39,18 @@ def mg_merge(case, ctx):
     agg = {c: f for c, f in zip(cols, case["aggs"]) if f != "sum"} or None
     out = os.path.join(d, "out.cool")
     kw = dict(columns=cols if cols != ["count"] else None, agg=agg)
+    if case.get("reuse_dtypes"):
+        # the caller keeps ONE dtype mapping for several merges: an earlier merge of narrow (int8) coolers went through it
+        dt = {}
+        small = []
+        for k in range(2):
+            p = os.path.join(d, f"small{k}.cool")
+            cooler.create_cooler(p, gen.bins_frame(case["table"]), gen.pixels_frame([[0, 0] + [1] * len(cols)], cols,
+                                 {c: np.int64 for c in cols}), columns=cols if cols != ["count"] else None,
+                                 dtypes=_dtypes(cols, 8), ordered=True, symmetric_upper=case["mode"] == "symm")
+            small.append(p)
+        cooler.merge_coolers(os.path.join(d, "earlier.cool"), small, mergebuf=10, dtypes=dt, **kw)
+        kw["dtypes"] = dt
     try:
         if case.get("via") == "cli":
             from click.testing import CliRunner
